@@ -803,6 +803,19 @@ func (g *G) setDefault(a *m.Attr) {
 			return
 		}
 	}
+	if v.K == "string" && v.S != "" {
+		// a multi-line string whose first line starts with a tab is written by
+		// yaml.v3 as a block scalar that yaml.v3 (the reader the checks use, and
+		// other libyaml descendants) cannot read back although it is valid
+		// YAML: outside the generated domain. A leading newline is dropped by
+		// the YAML rendering (open finding).
+		if v.S[0] == '\t' {
+			v.S = "x" + v.S[1:]
+		}
+		if v.S[0] == '\n' && g.avoid("C07-yaml-drops-leading-newline-in-description") {
+			v.S = "x" + v.S[1:]
+		}
+	}
 	a.Default = &v
 	g.feat("default")
 }
